@@ -53,12 +53,43 @@ def to_xml(n, ws=""):
     return f"<{n.tag}{a}>{ws if n.children else ''}{inner}{ws if n.children else ''}</{n.tag}>"
 
 
+def unum(v):
+    """Unsigned spelling (arc radii are `nonnegative-number`s: no explicit plus)."""
+    t = fnum(v)
+    return t[1:] if t.startswith("+") else t
+
+
+LEX = {"rng": None, "p": 0.04, "count": None}  # lexical variety of attribute numbers (set by Gen)
+
+
 def fnum(v):
+    """Number as attribute text.  With a small probability one of the other spellings the SVG number
+    grammar allows for the same value: leading dot, explicit plus, trailing dot, exponent with e / E and
+    explicit sign."""
     if isinstance(v, str):
         return v
-    if float(v).is_integer():
-        return str(int(v))
-    return repr(round(float(v), 4))
+    plain = str(int(v)) if float(v).is_integer() else repr(round(float(v), 4))
+    r = LEX["rng"]
+    if r is not None and r.random() < LEX["p"]:
+        x = float(plain)
+        k = r.random()
+        alt = plain
+        if k < 0.25 and plain.startswith(("0.", "-0.")):
+            alt = plain.replace("0.", ".", 1)
+        elif k < 0.45 and x > 0:
+            alt = "+" + plain
+        else:
+            # (no "5." here: the pinned path-data tokenizer refuses a trailing dot - permitted by C10 - and these
+            #  texts also end up in path data and point lists, where that would only cost judged documents)
+            alt = gp.fmt_num(x, r, "exp")
+        try:
+            if float(alt) == x:
+                if LEX["count"] is not None:
+                    LEX["count"]["lexical_number_form"] += 1
+                return alt
+        except ValueError:
+            pass
+    return plain
 
 
 PALETTE = ["red", "blue", "green", "#ff0", "#0ff", "#f0f", "orange", "purple", "brown", "pink", "gray", "navy", "teal", "olive",
@@ -69,6 +100,7 @@ class Gen:
     def __init__(self, rng, **opt):
         self.r = rng
         self.f = Counter()
+        LEX["rng"], LEX["count"] = rng, self.f
         self.nid = 0
         self.ncol = 0
         self.opt = dict(
@@ -90,6 +122,10 @@ class Gen:
         return round(self.r.uniform(lo, hi), nd)
 
     def new_id(self, prefix):
+        if self.r.random() < 0.04:
+            # XML names may contain any letter
+            prefix = self.r.choice(("град", "dégradé", "ñ", "Ω")) + prefix
+            self.f["non_ascii_id"] += 1
         self.nid += 1
         return f"{prefix}{self.nid}"
 
@@ -138,7 +174,7 @@ class Gen:
                     d += f" Q{n()},{n()} {n()},{n()} T{fnum(p[0])},{fnum(p[1])}"
                 else:
                     self.f["path_arc"] += 1
-                    d += f" A{fnum(self.num(5, 40))} {fnum(self.num(5, 40))} {fnum(self.num(0, 90, 0))} {r.randint(0, 1)} {r.randint(0, 1)} {fnum(p[0])},{fnum(p[1])}"
+                    d += f" A{unum(self.num(5, 40))} {unum(self.num(5, 40))} {fnum(self.num(0, 90, 0))} {r.randint(0, 1)} {r.randint(0, 1)} {fnum(p[0])},{fnum(p[1])}"
             if r.random() < 0.6:
                 d += " Z"
             return d
@@ -158,7 +194,7 @@ class Gen:
             elif c == "q":
                 d += f" q{n()},{n()} {n()},{n()}"
             else:
-                d += f" a{fnum(self.num(5, 30))} {fnum(self.num(5, 30))} {fnum(self.num(0, 90, 0))} {r.randint(0, 1)} {r.randint(0, 1)} {n()},{n()}"
+                d += f" a{unum(self.num(5, 30))} {unum(self.num(5, 30))} {fnum(self.num(0, 90, 0))} {r.randint(0, 1)} {r.randint(0, 1)} {n()},{n()}"
         return d + " z"
 
     def shape(self, kinds=None, closed_only=False):
@@ -187,6 +223,20 @@ class Gen:
         if k in ("polygon", "polyline"):
             pts = [(self.num(5, 95), self.num(5, 95)) for _ in range(r.randint(3, 6))]
             return Node(k, {"points": " ".join(f"{fnum(px)},{fnum(py)}" for px, py in pts)})
+        if r.random() < 0.06:
+            # integer coordinates except one that is tiny (far below any rounding step); every spelling of it
+            xi, yi, wi, hi = int(x), int(y), int(w) + 2, int(h) + 2
+            tiny = r.choice(("1e-5", "0.00001", "3e-06", "2E-5", "0.000004", "1e-7"))
+            self.f["tiny_coordinate"] += 1
+            form = r.random()
+            if form < 0.4:
+                # the tiny number is an absolute coordinate itself (next to the axis)
+                d = f"M{tiny},{yi} L{wi},{yi} L{wi},{yi + hi} L0,{yi + hi} Z" if r.random() < 0.5 else f"M{xi},{tiny} L{xi + wi},0 L{xi + wi},{hi} L{xi},{hi} Z"
+            elif form < 0.7:
+                d = f"M{xi},{yi} L{xi + wi},{yi} L{xi + wi},{yi + hi} l{tiny},0 L{xi},{yi + hi} Z"
+            else:
+                d = f"M{xi},{yi} L{xi + wi},{yi} L{xi + wi},{yi + hi} L{xi},{yi + hi} L{xi},{yi} l{tiny},0 Z"
+            return Node("path", {"d": d})
         return Node("path", {"d": self.path_d()})
 
     def painted_shape(self):
@@ -426,6 +476,14 @@ class Gen:
                 cp.attrs["transform"] = self.transform()
                 has_tf = True
                 self.f["clippath_transform"] += 1
+            if r.random() < 0.1:
+                # a child without area (it clips nothing in, and must not disturb its siblings) - first, so that
+                # the union starts from an empty region
+                cp.children.append(r.choice((Node("line", {"x1": "10", "y1": "10", "x2": "60", "y2": "10"}),
+                                             Node("polyline", {"points": "10,10 50,50 30,30"}),
+                                             Node("path", {"d": "M5,5 L60,5"}),
+                                             Node("path", {"d": "M20,20 L20,70 L20,40 Z"}))))
+                self.f["clip_child_without_area_first"] += 1
             for _ in range(r.randint(1, 3)):
                 kk = r.random()
                 if kk < 0.4:
@@ -757,7 +815,7 @@ def stroke_doc(rng, hairpins=False):
                 n_ = lambda: fnum(g.num(5, 95, 0))
                 if c == "A":
                     # rotated, non-circular arcs, often with radii too small for the chord (they get scaled up)
-                    d += (f" A{fnum(g.num(22, 30, 0))} {fnum(g.num(22, 30, 0))} {fnum(r.choice((0, 30, 45, 60, 120, -20, g.num(-180, 180, 0))))} "
+                    d += (f" A{unum(g.num(22, 30, 0))} {unum(g.num(22, 30, 0))} {fnum(r.choice((0, 30, 45, 60, 120, -20, g.num(-180, 180, 0))))} "
                           f"{r.randint(0, 1)} {r.randint(0, 1)} {n_()},{n_()}")
                     g.f["stroked_arc"] += 1
                 elif c == "C":
@@ -908,6 +966,10 @@ def gradient_node(g, r, gid, units=None, kind=None, with_stops=True, with_geom=T
     pct = r.random() < 0.4
 
     def L(v):  # v in 0..1 of the reference box
+        if r.random() < 0.04:
+            # a tiny non-zero coordinate: serialised in exponent form by the conversion
+            g.f["grad_tiny_coordinate"] += 1
+            return r.choice(("0.00002", "2e-05", "0.00005", "3E-6"))
         if bb:
             return f"{fnum(round(v * 100, 1))}%" if pct else fnum(round(v, 3))
         return f"{fnum(round(v * 100, 1))}%" if pct else fnum(round(v * 100, 1))
@@ -1098,6 +1160,9 @@ def noise_node(g, r, kind):
             kids.insert(r.randint(0, 1), Node(r.choice(("desc", "title")), {}, [], "described"))
             g.f["noise_nested_descriptive"] += 1
         return Node("metadata", {}, kids, flag="noise")
+    if kind == "foreign_el" and r.random() < 0.35:
+        g.f["noise_odd_namespace"] += 1
+        return Node("odd:info", {"odd:level": "3"}, [Node("odd:item", {}, [], "x")], flag="noise")
     if kind == "foreign_el":
         return Node("sodipodi:namedview", {"pagecolor": "#ffffff", "inkscape:zoom": "1"}, [Node("inkscape:grid", {"type": "xygrid"})], flag="noise")
     if kind == "anon_symbol":
@@ -1105,7 +1170,9 @@ def noise_node(g, r, kind):
     raise ValueError(kind)
 
 
-FOREIGN_NS = {"xmlns:inkscape": "http://www.inkscape.org/namespaces/inkscape", "xmlns:sodipodi": "http://sodipodi.sourceforge.net/DTD/sodipodi-0.dtd"}
+FOREIGN_NS = {"xmlns:inkscape": "http://www.inkscape.org/namespaces/inkscape", "xmlns:sodipodi": "http://sodipodi.sourceforge.net/DTD/sodipodi-0.dtd",
+              # a namespace name is any URI reference
+              "xmlns:odd": "http://example.org/~tool/ns?version=1.2+beta%20@x;y=(1)"}
 
 
 def mixed_doc(rng, unsupported=True, noise=True, text_only_unsupported=False, **opt):
@@ -1154,6 +1221,9 @@ def insert_noise(g, r, root, count):
         if kind == "foreign_attr":
             t = r.choice(els)
             t.attrs["inkscape:label"] = "layer"
+            if r.random() < 0.35:
+                t.attrs["odd:version"] = "1.2"
+                g.f["noise_odd_namespace"] += 1
             if r.random() < 0.5:
                 t.attrs["sodipodi:nodetypes"] = "cccc"
             done.append((kind, t.tag))
